@@ -296,7 +296,11 @@ def main():
             e2 = abs(got_cm - want_int / R.CM2INT) / abs(want_int / R.CM2INT)
             ck.case("point-dipole", s, sample=dict(rp, got=got, want=want_int,
                                                    rel=e))
-            if e > 1e-6 or e2 > 1e-6:
+            # single-precision positions: the library computes the distance
+            # vector in single precision (unit round-off 6e-8, amplified by
+            # the cube of the distance and the cancellation in the bracket)
+            ptol = 1e-4 if form == "float32" else 1e-6
+            if e > ptol or e2 > ptol:
                 ck.violation("point-dipole", "formula:" + form, dict(
                     rp, got=got, want=want_int, rel=e, rel_cm=e2), rp)
 
